@@ -247,7 +247,9 @@ pub fn check(rec: &RunRecord) -> Vec<Violation> {
     let mut out = vec![];
     let sc = &rec.scenario;
     let q = rec.quiescent_step;
-    let clean_end = matches!(sc.ending, Ending::Stop | Ending::Timeout);
+    // An injected store fault makes the agent fail (that is the correct reaction): nothing about
+    // convergence at quiescence can be demanded of such a run.
+    let clean_end = matches!(sc.ending, Ending::Stop | Ending::Timeout) && !rec.store_fault_fired;
 
     // Frames of the first incarnation grouped by (peer, lane).
     let mut by_pl: BTreeMap<(u32, String), Vec<&Frame>> = BTreeMap::new();
@@ -799,7 +801,8 @@ pub fn check(rec: &RunRecord) -> Vec<Violation> {
         }
         let mut got: BTreeMap<i32, Vec<i32>> = BTreeMap::new();
         for f in rec.hist.target_frames.iter().filter(|f| f.step <= qs) {
-            let target = f.lane.trim_start_matches('t').parse::<i32>().unwrap_or(-1);
+            // Ad hoc targets are lanes t0..t2, registered commanders lanes r0, r1 (numbered 10, 11).
+            let target = if let Some(n) = f.lane.strip_prefix('r') { n.parse::<i32>().map(|n| 10 + n).unwrap_or(-1) } else { f.lane.trim_start_matches('t').parse::<i32>().unwrap_or(-1) };
             match std::str::from_utf8(&f.body).ok().and_then(|t| t.parse::<i32>().ok()) {
                 Some(v) => got.entry(target).or_default().push(v),
                 None => out.push(Violation::new("C14", "C14.sent_corrupt", "", format!("target lane {}: body {:?}", f.lane, body_text(&f.body)))),
